@@ -6,13 +6,33 @@ import json, subprocess, sys, os, time
 root = os.path.dirname(os.path.dirname(os.path.abspath(__file__)))
 muts = {m["id"]: m for m in json.load(open(os.path.join(root, "tools", "mutants.json")))}
 mid = sys.argv[1]
-m = muts[mid]
+revert = None
+if mid == "--revert":   # tools/mutant.py --revert <fix-commit> <CNN> [tier]: undo one fix: commit in the working tree
+    revert = sys.argv[2]; sys.argv = sys.argv[1:]; mid = "revert-" + revert
+    m = {"property": None, "edits": [], "negative_control": False}
+elif mid == "--patch":  # tools/mutant.py --patch <file.diff> <CNN> [tier]: apply a seeded change
+    revert = None; patch = sys.argv[2]; sys.argv = sys.argv[1:]; mid = "patch-" + os.path.basename(os.path.dirname(patch) or patch)
+    m = {"property": None, "edits": [], "negative_control": False, "patch": patch}
+else:
+    m = muts[mid]
 prop = sys.argv[2] if len(sys.argv) > 2 else m["property"]
 tier = sys.argv[3] if len(sys.argv) > 3 else "quick"
 st = subprocess.run(["git", "-C", "/repo", "status", "--porcelain"], capture_output=True, text=True).stdout.strip()
 if st:
     print("refusing: /repo has uncommitted changes:\n" + st); sys.exit(3)
 try:
+    if revert:
+        d = subprocess.run(["git", "-C", "/repo", "show", revert], capture_output=True, text=True).stdout
+        r = subprocess.run(["git", "-C", "/repo", "apply", "-R", "--3way"], input=d, text=True, capture_output=True)
+        if r.returncode != 0:
+            r = subprocess.run(["git", "-C", "/repo", "apply", "-R"], input=d, text=True, capture_output=True)
+        if r.returncode != 0:
+            print("cannot revert", revert, r.stderr); sys.exit(4)
+        subprocess.run(["git", "-C", "/repo", "reset", "-q"])
+    if m.get("patch"):
+        r = subprocess.run(["git", "-C", "/repo", "apply", m["patch"]], capture_output=True, text=True)
+        if r.returncode != 0:
+            print("cannot apply", m["patch"], r.stderr); sys.exit(4)
     for e in m["edits"]:
         p = os.path.join("/repo", e["file"]); s = open(p).read()
         if s.count(e["old"]) < 1:
@@ -28,4 +48,5 @@ try:
         print("   ", l[:300])
     print("   ...", out.splitlines()[-1][:300] if out.splitlines() else "")
 finally:
-    subprocess.run(["git", "-C", "/repo", "checkout", "--", "."])
+    subprocess.run(["git", "-C", "/repo", "reset", "-q", "--hard", "HEAD"])
+    subprocess.run(["git", "-C", "/repo", "clean", "-fdq"])
